@@ -180,7 +180,7 @@ def gen_case(rng, tier, kind=None, dtype=None):
         c = mk_case(dtype, vals, kind, [rng.randint(-L, L - 1) for _ in range(rng.randint(1, 7))])
         if kind == "array":
             c["readonly"] = rng.random() < 0.3
-            c["idtype"] = rng.choice(["int64", "int64", "int32", "intp", "int16"])
+            c["idtype"] = rng.choice(["int64", "int64", "int32", "intp", "int16", ">i8", ">i4"])
         return c
     if kind in ("boolarray", "boollist", "rlmask"):
         p = rng.choice([0.0, 0.5, 0.5, 1.0])
